@@ -3,7 +3,7 @@ from props import mmr_common as mc
 
 ID = "C05"
 GEN_TAGS = []
-PROOF_TARGETS = ["proofs/MmrProofs.vo", "proofs/MmrSmall.vo", "proofs/MmrUpdates.vo"]
+PROOF_TARGETS = ["proofs/MmrProofs.vo", "proofs/MmrSmall.vo", "proofs/MmrUpdates.vo", "proofs/MmrBatch.vo", "proofs/MmrHistory.vo"]
 PROPS_FILE = "props/C05.v"
 EXTRACT = "extract/ExtractMmr.vo"
 ORACLE = ("gen_mmr", "mmr.ml")
